@@ -2,7 +2,7 @@
    Property theorems only: each is closed by [exact] of a lemma from Proofs/, followed by Print Assumptions.
    Model/Sampling.v is hand-written (one sample as a function of the standard normal draws it consumes) and tied to
    MTfit/algorithms/base.py by bit-exact execution against the real generators fed with recorded draws. *)
-From Coq Require Import Reals Lra.
+From Coq Require Import Reals Lra List.
 From MTV.Model Require Import Sampling.
 From MTV.Proofs Require Import C08_sampling C08_rotation.
 Open Scope R_scope.
@@ -60,6 +60,19 @@ Theorem C08_axis_draws_rotation_invariant : forall Q ar x, is_rotation Q ->
   axis_draw_density (rapply Q ar) (rapply Q x) = axis_draw_density ar x.
 Proof. exact axis_draw_density_rotation_invariant. Qed.
 Print Assumptions C08_axis_draws_rotation_invariant.
+
+(* several events at once: as many sample sets as events, each with one sample per column of its own block of draws and
+   depending on that block alone *)
+Theorem C08_joint_draw_counts : forall (D S : Type) (f : D -> S) blocks,
+  length (joint_draw f blocks) = length blocks /\
+  forall e, length (nth e (joint_draw f blocks) nil) = length (nth e blocks nil).
+Proof. exact joint_draw_counts. Qed.
+Print Assumptions C08_joint_draw_counts.
+
+Theorem C08_joint_draw_events_use_their_own_draws : forall (D S : Type) (f : D -> S) blocks blocks' e,
+  nth e blocks nil = nth e blocks' nil -> nth e (joint_draw f blocks) nil = nth e (joint_draw f blocks') nil.
+Proof. exact joint_draw_own_block. Qed.
+Print Assumptions C08_joint_draw_events_use_their_own_draws.
 
 Example C08_rotation_nonvacuous : is_rotation ((0, -1, 0), (1, 0, 0), (0, 0, 1)).
 Proof. exact quarter_turn_is_rotation. Qed.
